@@ -131,18 +131,32 @@ Proof. exact CacheP.deletion_retry_converges. Qed.
 Print Assumptions c20_job_deletion_retry_converges.
 
 (** job controller, nothing half-done: a reconcile pass in which every API call failed (server
-    error, conflict, not found, already exists, invalid) leaves the Job, its resourceVersion
-    and the Pods in the API exactly as they were *)
+    error, conflict, not found, already exists, invalid) leaves the whole world - the Job, its
+    resourceVersion, the Pods, the caches, the events on their way, the clock - exactly as it
+    was; only injected failures were consumed *)
 Theorem c20_job_failed_pass_changes_nothing :
   forall cfg w w' acts ok armed,
     Job.World.sync_one cfg w = (w', acts, ok, armed) -> existsb NoopP.changes acts = false ->
-    Job.Sync.api_job w' = Job.Sync.api_job w /\ Job.Sync.api_rv w' = Job.Sync.api_rv w /\
-    Job.Sync.api_pods w' = Job.Sync.api_pods w.
-Proof.
-  intros cfg w w' acts ok armed H Hn. pose proof (NoopP.failed_pass_changes_nothing cfg w w' acts ok armed H Hn) as E.
-  unfold NoopP.api4 in E. injection E as E1 E2 E3 _. auto.
-Qed.
+    w' = Job.Sync.set_faults w (Job.Sync.faults w').
+Proof. exact NoopP.failed_pass_world. Qed.
 Print Assumptions c20_job_failed_pass_changes_nothing.
+
+(** ... and so for any number of such passes in a row: the first pass in which a call succeeds
+    starts from the world the failures found - failures leave nothing behind to reconcile *)
+Theorem c20_job_failed_passes_leave_the_world :
+  forall cfg n w, NoopP.all_failed cfg n w -> exists fl, CacheP.iter_pass cfg n w = Job.Sync.set_faults w fl.
+Proof. exact NoopP.failed_passes_leave_the_world. Qed.
+Print Assumptions c20_job_failed_passes_leave_the_world.
+
+(** ... hence the same outcome as without the failures: once the injected failures are used
+    up, everything that follows a burst of entirely failed passes is what follows from the
+    original world with no failure injected *)
+Theorem c20_job_failed_burst_same_outcome :
+  forall cfg n m w,
+    NoopP.all_failed cfg n w -> Job.Sync.faults (CacheP.iter_pass cfg n w) = [] ->
+    CacheP.iter_pass cfg (n + m) w = CacheP.iter_pass cfg m (Job.Sync.set_faults w []).
+Proof. exact NoopP.failed_burst_same_outcome. Qed.
+Print Assumptions c20_job_failed_burst_same_outcome.
 
 (** Non-vacuity: three server errors, then the Job is created exactly once *)
 Open Scope string_scope.
@@ -169,5 +183,17 @@ Example c20_job_failed_pass_nonvacuous :
   let w := Job.Sync.mkJW (Some j) 7 [] [] (Some j) 7 [] [] [] 200 [Job.Sync.FUpdateJob] in
   let cfg := Job.Sync.mkCfg (Some 900) (Some 900) (Some 3600) in
   let '(w', acts, ok, armed) := Job.World.sync_one cfg w in
-  acts = [Job.Sync.AUpdateJob 3] /\ existsb NoopP.changes acts = false /\ ok = false.
+  acts = [Job.Sync.AUpdateJob 3] /\ existsb NoopP.changes acts = false /\ ok = false /\ NoopP.all_failed cfg 1 w.
+Proof. vm_compute. repeat split; reflexivity. Qed.
+
+(** a burst of three failed Pod creates: three entirely failed passes, failures used up; the
+    fourth pass creates the task as if nothing had happened *)
+Example c20_job_burst_nonvacuous :
+  let j := Job.Core.mkJob ["aaaaaa"] false Job.Core.AllSuccessful 2 0 false false None false None None false true None (Some 10)
+             [] 0 0 None (Job.Core.CWaiting Job.Core.WPendingCreation) Job.Core.PhStarting Job.Core.SWaiting in
+  let w := Job.Sync.mkJW (Some j) 7 [] [] (Some j) 7 [] [] [] 200 (repeat Job.Sync.FCreatePod 3) in
+  let cfg := Job.Sync.mkCfg (Some 900) (Some 900) (Some 3600) in
+  NoopP.all_failed cfg 3 w /\ Job.Sync.faults (CacheP.iter_pass cfg 3 w) = [] /\
+  map Job.Core.p_name (Job.Sync.api_pods (CacheP.iter_pass cfg 4 w)) = ["j-aaaaaa-0"] /\
+  Job.Sync.api_pods (CacheP.iter_pass cfg 3 w) = [].
 Proof. vm_compute. repeat split; reflexivity. Qed.
